@@ -38,7 +38,7 @@ def _lib_version():
     return tuple(nf.HDF_FF_VERSION)
 
 
-def _prepare(version, fmt, idkind, with_content=True):
+def _prepare(version, fmt, idkind, with_content=True, with_groups=True):
     """an existing file with the given header, written straight into the store"""
     st = fakeh5.Store()
     st.order_tracked = True
@@ -53,9 +53,10 @@ def _prepare(version, fmt, idkind, with_content=True):
     root.attrs["updated_at"] = b"20200101T000000"
     data = fakeh5.GNode()
     meta = fakeh5.GNode()
-    root.links["data"] = data
-    root.links["metadata"] = meta
-    if with_content:
+    if with_groups:
+        root.links["data"] = data
+        root.links["metadata"] = meta
+    if with_content and with_groups:
         blk = fakeh5.GNode()
         blk.attrs.update({"name": "blk", "type": "t", "entity_id": "99999999-2222-4333-8444-555555555555",
                           "created_at": b"20200101T000000", "updated_at": b"20200101T000000"})
@@ -68,7 +69,7 @@ def _prepare(version, fmt, idkind, with_content=True):
 # 1. the decision table of File.__init__
 #    PART = (mode, exists)
 # ---------------------------------------------------------------------------
-def _ob_open(vx: int, vy: int, vz: int, vlen: int, fmt: int, idk: int) -> bool:
+def _ob_open(vx: int, vy: int, vz: int, vlen: int, fmt: int, idk: int, groups: bool) -> bool:
     """
     pre: 0 <= vlen < 3
     pre: 0 <= fmt < 2
@@ -85,7 +86,13 @@ def _ob_open(vx: int, vy: int, vz: int, vlen: int, fmt: int, idk: int) -> bool:
     tag = _pick(["nix", "xin"], fmt)
     idkind = _pick(["valid", "invalid", "missing"], idk)
     if exists:
-        st = _prepare(version, tag, idkind)
+        if mode == "r" and not groups:
+            # outside: read-only open of an acceptable file without /data and /metadata
+            id_ok0 = idkind == "valid"
+            assume(not (n == 3 and tag == "nix" and vx == X and vy <= Y and
+                        (id_ok0 or not (vx, vy, vz) >= (1, 2, 0))))
+        # an existing file need not have been written by nixio: it may lack /data and /metadata
+        st = _prepare(version, tag, idkind, with_groups=groups)
         before = fakeh5.snapshot(st)
     try:
         f = nixio.File(PATH, mode)
@@ -130,7 +137,7 @@ def _ob_open(vx: int, vy: int, vz: int, vlen: int, fmt: int, idk: int) -> bool:
     if opened != accept:
         return False
     if opened:
-        if [b.name for b in f.blocks] != ["blk"]:
+        if [b.name for b in f.blocks] != (["blk"] if groups else []):
             return False
         if mode == "r" and not f._h5file.readonly:
             return False
